@@ -306,7 +306,8 @@ pub fn run(ctx: &Ctx) -> ! {
             Err(e) => crate::common::machinery(&format!("C14 child for seed {s} failed: {e}")),
         });
         let done = sdet_perms(&reports.lock().unwrap()).len() == wanted;
-        if (done && next >= 32) || ctx.elapsed() > budget {
+        let min_seeds = if quick { 16 } else { 32 };
+        if (done && next >= min_seeds) || ctx.elapsed() > budget {
             break;
         }
     }
@@ -366,7 +367,7 @@ pub fn run(ctx: &Ctx) -> ! {
     c.insert("traces_validated_against_impl".into(), json!(matched));
     c.insert("evaluations".into(), json!(all.len()));
     c.insert("distinct_nontrivial".into(), json!(configs.len()));
-    c.insert("rule".into(), json!("one child process per hash seed (LD_PRELOAD getrandom shim; seeds 0,1,2,... until every relative iteration order of S-det's vertex types has been seen (quick: the 6 orders of its three non-root types; thorough: all 24 orders of its four keys), at least 32 / at most the tier cap) plus two free-running processes; each child compiles the enumerated query space incl. invalid queries (IR or error text), executes cases with a recording adapter (rows in order + adapter call trace), compiles the repository's own test queries and constructs the C19 schema family (ok or error text), everything twice in-process; all section digests must be identical across processes. states = distinct hash-map iteration-order configurations observed, transitions = processes run"));
+    c.insert("rule".into(), json!("one child process per hash seed (LD_PRELOAD getrandom shim; seeds 0,1,2,... until every relative iteration order of S-det's vertex types has been seen (quick: the 6 orders of its three non-root types; thorough: all 24 orders of its four keys), at least 16 (quick) / 32 (thorough), at most the tier cap) plus two free-running processes; each child compiles the enumerated query space incl. invalid queries (IR or error text), executes cases with a recording adapter (rows in order + adapter call trace), compiles the repository's own test queries and constructs the C19 schema family (ok or error text), everything twice in-process; all section digests must be identical across processes. states = distinct hash-map iteration-order configurations observed, transitions = processes run"));
     c.insert("seeds_run".into(), json!(reports.len()));
     c.insert("sdet_vertex_type_orders_seen".into(), json!({"seen": perms.len(), "of": wanted}));
     c.insert("vertex_type_order_pair_coverage".into(), json!(pair_cov));
